@@ -5,6 +5,9 @@ import json, os, re, subprocess, sys, time, hashlib
 
 ROOT = os.path.dirname(os.path.dirname(os.path.abspath(__file__)))
 sys.path.insert(0, ROOT)
+# Runs against a scratch copy of the repository (SANSLDAP_SRC set: self-tests with seeded changes) must not overwrite the
+# evidence / replay files of the real tree.
+OUT_ROOT = ROOT if not os.environ.get("SANSLDAP_SRC") else os.path.join("/tmp", "pyvc-scratch-out")
 NATIVE_PY = "/venv/bin/python"
 BASELINE = os.path.join(ROOT, "baseline", "obligations.json")
 
@@ -23,6 +26,12 @@ def props_of(func, clause, kind, explicit=None):
     f = func or ""
     c = clause or ""
     if f.startswith("asn1") or f.startswith("specs.ber"):
+        if kind == "raises-unexpected":
+            return {"C05"}            # an exception class outside the documented ones: containment, not arithmetic
+        if kind == "raises":
+            return {"C07", "C06"}     # e.g. NotEnougData although the value is complete
+        if "_read_asn1_header" in f or "_read_asn1_boolean" in f or "peek_header" in f or "read_boolean" in f:
+            return {"C07", "C04"}
         return {"C07"}
     if "_session" in f or f == "history":
         is_client = "LDAPClient" in f
@@ -99,7 +108,7 @@ def known_match(pid, rec, known):
 
 
 def write_replay(pid, n, payload):
-    d = os.path.join(ROOT, "replays", pid)
+    d = os.path.join(OUT_ROOT, "replays", pid)
     os.makedirs(d, exist_ok=True)
     p = os.path.join(d, f"violation_{n}.json")
     json.dump(payload, open(p, "w"), indent=1, default=str)
@@ -155,7 +164,8 @@ def run_property(pid, tier):
                 errors.append({"function": jb["ckey"], "error": res["error"][:600], "kind": res.get("error_kind")})
         for o in res["obligations"]:
             o["function"] = jb["ckey"]
-            if pid not in props_of(jb["ckey"], o.get("clause"), o.get("kind")) and not jb["ckey"].startswith("specs.") and reg.get("filter_by_clause", True) and ("_session" in jb["ckey"]):
+            if pid not in props_of(jb["ckey"], o.get("clause"), o.get("kind")) and not jb["ckey"].startswith("specs.") and reg.get("filter_by_clause", True) \
+                    and ("_session" in jb["ckey"] or jb["ckey"].startswith("asn1")):
                 continue
             instances.append(o)
             solver_s += o["time"]
@@ -196,6 +206,18 @@ def run_property(pid, tier):
             regressions_refuted.append({"name": name, "instances": bad})
         else:
             regressions_open.append({"name": name, "why": "solver answered unknown / timeout", "instances": bad})
+    # an obligation that is not in the baseline (e.g. a new exception path) and that the solver refutes is a violation
+    # candidate as well; new obligations the solver cannot decide are reported as undecided
+    for name, os_ in sorted(by_name.items()):
+        if name in baseline:
+            continue
+        bad = [o for o in os_ if o["status"] != "proved"]
+        if not bad:
+            continue
+        if any(o["status"] == "refuted" for o in bad):
+            regressions_refuted.append({"name": name, "instances": bad})
+        else:
+            regressions_open.append({"name": name, "why": "new obligation, solver answered unknown / timeout", "instances": bad})
     reported = set()
     known_lines = []
     for v in native_viol:
@@ -211,7 +233,7 @@ def run_property(pid, tier):
         reported.add(key)
         nviol += 1
         path = write_replay(pid, nviol, {"property": pid, **v})
-        lines.append(f"VIOLATION property={pid} replay={os.path.relpath(path, ROOT)}   # {v.get('function')}: {str(v.get('clause'))[:140]}")
+        lines.append(f"VIOLATION property={pid} replay={os.path.relpath(path, OUT_ROOT)}   # {v.get('function')}: {str(v.get('clause'))[:140]}")
         if nviol >= 5:
             break
     if not native_viol or nviol == 0:
@@ -225,7 +247,7 @@ def run_property(pid, tier):
                                              "obligation": rg["name"], "no_failing_input": True,
                                              "prover": {"status": inst["status"], "backend": inst["backend"], "counter_model_inputs": inst.get("model"),
                                                         "all_instances": [{k: o.get(k) for k in ("status", "time", "backend", "reason", "model")} for o in rg["instances"]][:6]}})
-            lines.append(f"VIOLATION property={pid} replay={os.path.relpath(path, ROOT)}   # obligation {rg['name']} refuted no-failing-input-found")
+            lines.append(f"VIOLATION property={pid} replay={os.path.relpath(path, OUT_ROOT)}   # obligation {rg['name']} refuted no-failing-input-found")
     if nviol:
         exit_code = 1
     elif regressions_open or [e for e in errors]:
@@ -279,8 +301,8 @@ def run_property(pid, tier):
         coverage[k_] = v_
     ev = {"property_id": pid, "tier": tier, "seed": seed, "level": level, "coverage": coverage,
           "assumptions": trusted + reg.get("assumptions", []) + native_errors, "wall_s": round(time.time() - t0, 2), "violations": nviol}
-    os.makedirs(os.path.join(ROOT, "evidence"), exist_ok=True)
-    json.dump(ev, open(os.path.join(ROOT, "evidence", f"{pid}.json"), "w"), indent=1, default=str)
+    os.makedirs(os.path.join(OUT_ROOT, "evidence"), exist_ok=True)
+    json.dump(ev, open(os.path.join(OUT_ROOT, "evidence", f"{pid}.json"), "w"), indent=1, default=str)
 
     # ---- report
     print(f"property {pid} tier={tier}: {n_dis}/{n_obl} obligation instances discharged ({len(proved_names)} names), "
